@@ -2,5 +2,9 @@ import OxyModel.Props.C09
 #print axioms C09.C09_lockset_sound
 #print axioms C09.C09_no_race
 #print axioms C09.C09_no_lost_update
+#print axioms C09.C09_no_lost_update_general
 #print axioms C09.C09_discipline
+#print axioms C09.C09_updates_atomic
+#print axioms C09.C09_no_lost_update_facts
+#print axioms C09.C09_race_free_instances_partial
 #print axioms C09.C09_race_free_partial
